@@ -28,11 +28,14 @@ Zero3 == [a \in 1..3 |-> 0]
 Zero33 == [o \in 1..3 |-> [i \in 1..3 |-> 0]]
 ZeroN == [k \in 1..NSt |-> 0]
 
-Init == bias = Zero3 /\ tr = Zero33 /\ sum = ZeroN /\ ops = <<>> /\ ret = <<>>
+\* ret is a record whose field name says what was returned: values of different shapes are never compared with each other
+\* (TLC's simulator compares states and fails on a sequence of integers against a sequence of sequences of equal length)
+None == [none |-> TRUE]
+Init == bias = Zero3 /\ tr = Zero33 /\ sum = ZeroN /\ ops = <<>> /\ ret = None
 
 Reset ==
   /\ bias' = Zero3 /\ tr' = Zero33 /\ sum' = ZeroN
-  /\ ops' = Append(ops, <<"reset">>) /\ ret' = <<>>
+  /\ ops' = Append(ops, <<"reset">>) /\ ret' = None
 
 \* sum over the states k that address bias axis a / transform element (o, i) - at most one by NamesUnique
 Upd(x, code) == LET S == {k \in 1..NSt : St[k] = code} IN IF S = {} THEN 0 ELSE x[CHOOSE k \in S : TRUE]
@@ -42,12 +45,12 @@ Update(j) ==
        /\ bias' = [a \in 1..3 |-> (IF Accumulate THEN bias[a] ELSE IF Upd(x, a) # 0 THEN 0 ELSE bias[a]) + Upd(x, a)]
        /\ tr' = [o \in 1..3 |-> [i \in 1..3 |-> (IF Accumulate THEN tr[o][i] ELSE IF Upd(x, 10 * o + i) # 0 THEN 0 ELSE tr[o][i]) + Upd(x, 10 * o + i)]]
        /\ sum' = [k \in 1..NSt |-> sum[k] + x[k]]
-  /\ ops' = Append(ops, <<"update", j>>) /\ ret' = <<>>
+  /\ ops' = Append(ops, <<"update", j>>) /\ ret' = None
 
 Estimates == [k \in 1..NSt |-> IF St[k] < 10 THEN bias[St[k]] ELSE tr[St[k] \div 10][St[k] % 10]]
 
 Get ==
-  /\ ret' = Estimates
+  /\ ret' = [get |-> Estimates]
   /\ ops' = Append(ops, <<"get">>)
   /\ UNCHANGED <<bias, tr, sum>>
 
@@ -58,7 +61,7 @@ HMat(r) == [a \in 1..3 |-> [k \in 1..NSt |->
 Dot(u, v) == LET RECURSIVE S(_) S(k) == IF k = 0 THEN 0 ELSE u[k] * v[k] + S(k - 1) IN S(Len(u))
 
 OutputMatrix(r) ==
-  /\ ret' = HMat(r)
+  /\ ret' = [h |-> HMat(r)]
   /\ ops' = Append(ops, <<"H", r>>)
   /\ UNCHANGED <<bias, tr, sum>>
 
